@@ -3,15 +3,15 @@ import itertools
 import random
 
 VARS = {
-    "str": ["S", "A", "B", "C", "D"],
+    "str": ["S", "A", "B", "C", "D", "E"],
     "int": [0, 1, 2, 3, 4],
     "clash": ["S", "a", "B", "b", "C"],                       # a variable and a terminal share a value
     "reserved": ["S", "a#CNF#", "C#CNF#1", "S#SUBS#0", "#STARTUNION#"],
-    "lower": ["s", "np", "vp", "x1", "y"],
+    "lower": ["s", "np", "vp", "x1", "y", "zed"],
     "termlike": ["S", "#TERM#a", "#TERM#b", "Start", "C#CNF#2"],
 }
 TERMS = {
-    "str": ["a", "b", "c"], "int": ["a", "b", "c"], "clash": ["a", "b", "c"],
+    "str": ["a", "b", "c", "d", "e"], "int": ["a", "b", "c"], "clash": ["a", "b", "c"],
     "reserved": ["a", "#0UNION#", "#1CONC#"], "lower": ["a", "b", "Cap"], "termlike": ["a", "b", "c"],
 }
 VCS = ["str", "str", "str", "int", "clash", "reserved", "lower", "termlike"]
@@ -41,6 +41,26 @@ def random_case(rng, max_vars=4, max_terms=2, max_prods=7, max_body=4, vcs=None,
     start = 0 if r < 0.93 else (None if r < 0.96 else nv)      # nv: a start symbol without productions
     vc = rng.choice(vcs or VCS)
     c = {"nv": nv, "nt": nt, "start": start, "prods": prods, "vc": vc}
+    if rng.random() < 0.5:
+        c["shuffle"] = rng.randrange(1 << 30)
+    return c
+
+
+def two_route_case(rng):
+    """a variable that is generating through one production and nullable only through another one made of
+    variables (the shape on which a drifting impact counter shows), under a start symbol that depends on it"""
+    prods = [[0, [["V", 1]]], [1, [["V", 2]]], [1, [["V", 3], ["V", 4]]], [2, [["T", 1]]], [3, []], [4, []]]
+    r = rng.random()
+    if r < 0.3:
+        prods[0] = [0, [["V", 1], ["V", 1]]]
+    elif r < 0.5:
+        prods.append([0, [["T", 0], ["V", 0]]])
+    if rng.random() < 0.4:
+        prods.append([4, [["T", 0]]])
+    if rng.random() < 0.3:
+        prods.append([3, [["V", 4], ["V", 4]]])
+    rng.shuffle(prods)
+    c = {"nv": 5, "nt": 2, "start": 0, "prods": prods, "vc": rng.choice(["str", "lower"])}
     if rng.random() < 0.5:
         c["shuffle"] = rng.randrange(1 << 30)
     return c
